@@ -52,6 +52,7 @@ NB_GEN_SUB_REL = ('derive:nb_gen', 'nb_gen_subinput@release', 'RELEASE profile (
 NB_GEN_REL = ('derive:nb_gen', 'nb_gen_vs_pest@release', 'RELEASE profile: 32 rules x all strings<=5 chars over 3 alphabets', 'q', {'VERIF_PROFILE': 'release'})
 NB_INPUT_REL = ('nb_input', 'nb_skip_contract@release', 'RELEASE profile: skip / Position::next on all strings<=4 chars x all spans', 'q', {'VERIF_PROFILE': 'release'})
 NB_GEN_SKIPTOK = ('derive:nb_gen', 'nb_gen_skip_tokens', 'generated parser vs pest, grammar with NON-silent WHITESPACE/COMMENT: 5 rules x all strings<=6 tokens over 2 alphabets', 'q')
+NB_GEN_SKIP_ONLY = ('derive:nb_gen', 'nb_gen_skip_only', 'generated parser vs pest, grammars defining ONLY a non-silent WHITESPACE / ONLY a non-silent COMMENT (own generator arms): 4 rules each x all strings<=7 chars over {a,b,comma,blank}', 'q')
 NB_GEN_COMMENT_INNER = ('derive:nb_gen', 'nb_gen_comment_inner', 'non-silent COMMENT mentioning a non-silent rule: all strings<=5 tokens', 'q')
 NB_LEAF = ('nb_peg', 'nb_leaf_contents', 'leaf contents on all strings<=3 chars over 10 characters (1-4 bytes, CR, LF)', 'q')
 NB_GEN_SUB = ('derive:nb_gen', 'nb_gen_subinput', 'generated parser: 15 rules x all strings<=4 chars over 2 alphabets x all sub-ranges (Span/Position vs fresh copy)', 'Q')
@@ -77,7 +78,7 @@ PROPS = {
         'verus': ['comb', 'choice', 'nodes', 'slices', 'slicefn', 'seqchk', 'seqpar', 'repchk', 'reppar', 'wrappers', 'leaf', 'input'],
         'expanded': True,
         'kani': K_PEG,
-        'native': NB_PEG + [NB_PEG_D1, NB_GEN, NB_GEN_T, NB_GEN_SKIPTOK, NB_MATCHERS],
+        'native': NB_PEG + [NB_PEG_D1, NB_GEN, NB_GEN_T, NB_GEN_SKIPTOK, NB_GEN_SKIP_ONLY, NB_MATCHERS],
         'assumptions': ['sem (PEG denotation with full backtracking, failing empty-stack operations) is pest\'s behaviour where pest is defined',
                         'generator translation of the grammar into the combinator type tree is not verified (DESIGN.md §6)'],
     },
@@ -89,7 +90,7 @@ PROPS = {
         'verus': [],
         'expanded': False,
         'kani': [],
-        'native': [NB_GEN, NB_GEN_T, NB_GEN_SKIPTOK, NB_GEN_COMMENT_INNER],
+        'native': [NB_GEN, NB_GEN_T, NB_GEN_SKIPTOK, NB_GEN_SKIP_ONLY, NB_GEN_COMMENT_INNER],
         'explanation': 'Every (rule, input) pair within the bound is parsed by the pest-generated and the pest-typed-generated parser; trees are compared after pruning atomic tokens in the pest tree. obligations/discharged are zero: nothing is proved beyond the bound.',
         'assumptions': ['pest is the reference'],
     },
@@ -101,7 +102,7 @@ PROPS = {
         'verus': ['comb', 'choice', 'nodes', 'slices', 'slicefn', 'seqchk', 'seqpar', 'repchk', 'reppar', 'wrappers', 'leaf', 'rules'],
         'expanded': True,
         'kani': K_PEG,
-        'native': NB_PEG + [NB_GEN, NB_GEN_T, NB_GEN_SKIPTOK, NB_GEN_SUB, NB_GEN_SUB_T],
+        'native': NB_PEG + [NB_GEN, NB_GEN_T, NB_GEN_SKIPTOK, NB_GEN_SKIP_ONLY, NB_GEN_SUB, NB_GEN_SUB_T],
         'assumptions': ['R1 (tracker erasure) is behaviour-preserving for match/offset/stack results'],
     },
     'C04': {
@@ -153,7 +154,7 @@ PROPS = {
         'verus': ['seqchk', 'seqpar', 'repchk', 'reppar', 'wrappers', 'rules'],
         'expanded': True,
         'kani': K_PEG,
-        'native': NB_PEG + [NB_GEN, NB_GEN_T, NB_GEN_SKIPTOK],
+        'native': NB_PEG + [NB_GEN, NB_GEN_T, NB_GEN_SKIPTOK, NB_GEN_SKIP_ONLY],
         'assumptions': ['which of 0 / 1 / INHERITED reaches each rule reference is decided by generator code outside the verified set'],
     },
     'C08': {
@@ -202,7 +203,7 @@ PROPS = {
         'verus': ['tracker', 'wrappers'],
         'expanded': False,
         'kani': [],
-        'native': [NB_GEN, NB_GEN_T, NB_GEN_SKIPTOK],
+        'native': [NB_GEN, NB_GEN_T, NB_GEN_SKIPTOK, NB_GEN_SKIP_ONLY],
         'assumptions': ['contracts of Tracker::clear / get_entry / record are assumed (BTreeMap has no vstd model)',
                         'truthfulness of expected/unexpected rule lists is decided only within the bound of nb_gen, with rules re-run in the default context'],
     },
@@ -262,7 +263,7 @@ PROPS = {
         'verus': [],
         'expanded': False,
         'kani': [],
-        'native': [NB_GEN, NB_GEN_T, NB_GEN_SKIPTOK],
+        'native': [NB_GEN, NB_GEN_T, NB_GEN_SKIPTOK, NB_GEN_SKIP_ONLY],
         'explanation': 'The traversal helpers are run on the real tree of every accepted (rule, input) pair within the bound and compared with a recursive reference traversal written in the test.',
         'assumptions': [],
     },
